@@ -40,6 +40,9 @@ STRING_SAMPLES = {
 }
 
 
+STRING_SAMPLES["repo_path"] += json.loads(os.environ.get("ZV_C18_PATHS", "[]"))
+
+
 def clap_arg(sub, long):
     for a in CLAP[sub]:
         if a["long"] == long:
